@@ -1,4 +1,5 @@
 import ZenonVerif.Model.Codec
+import ZenonVerif.Model.CodecPB
 import Driver.Core
 /-
 Driver handler of the `codec` stream (C13).
@@ -94,6 +95,14 @@ def pureCodec : List String → Option String
       if !rest.isEmpty then none
       let H := oracleH [(m.data, dd), (contentBytes m.content, cd)]
       pure (showHex (momentumPreimage H m))
+  | "ab-pb" :: toks => do
+      let (b, rest) ← parseBlock 64 toks
+      if !rest.isEmpty then none
+      pure (showHex b.serialize)
+  | "mom-pb" :: toks => do
+      let (m, rest) ← parseMomentum toks
+      if !rest.isEmpty then none
+      pure (showHex m.serialize)
   | _ => none
 
 end ZV.Driver
